@@ -64,7 +64,7 @@ def _rtf_blocks(blocks) -> str:
                     paras = [x for x in cell if x[0] == "p"]
                     out.append("\\pard\\intbl " + "\\par ".join(_rtf_inl(p[1]) for p in paras) + "\\cell\n")
                 out.append("\\row\n")
-            out.append("\\pard\n")
+            out.append("\\pard\\par\n")        # an (empty) paragraph ends the table: adjacent tables stay separate
         elif t == "page":
             out.append("\\page\n")
         else:
